@@ -77,7 +77,7 @@ def check_part_compute(rule, db, cfgname, fname, left_field, right_field, sign, 
             shp = loop_shape(f, ctx, Lp)
             if shp["var"] is not None and shp["var"][:2] == o[:2]:
                 L = shp
-    full = L is not None and L["kind"] == "index" and L["start"] == ("lit", 0) and L["rel"] == "<" and no_early_exit(L) and \
+    full = L is not None and L["kind"] == "index" and L["start"] == ("lit", 0) and L["rel"] == "<" and not L.get("exits") and \
         L["bound"] in (("mcall", "Eigen::SparseMatrix::outerSize", A["matrix"]), ("mcall", "Eigen::SparseMatrix::outerSize", B["matrix"]),
                        ("mcall", "Eigen::SparseMatrix::rows", A["matrix"]), ("mcall", "Eigen::SparseMatrix::cols", B["matrix"]))
     if okouter and full:
@@ -122,6 +122,38 @@ def check_part_compute(rule, db, cfgname, fname, left_field, right_field, sign, 
         rule.ok(site, f.loc(J), "Residue == a_oi*b_io*(w_outer(o) %s w_inner(i))" % ("+" if sign > 0 else "-"), cfgname)
     else:
         rule.bad(site, f.loc(J), "Residue is %s, the Lehmann representation needs %s%s" % (F.show(res), F.show(want_res), wit(F, res, want_res)), cfgname)
+    # per-item filters of the outer loop (`if (...) continue;`): an outer state may be skipped only under a condition that makes
+    # every term of that iteration negligible, i.e. the quantity found small must be a FACTOR of the residue that is added.
+    # (w_outer < eps does not qualify: the residue a*b*(w_outer -/+ w_inner) stays of order w_inner.)
+    if L.get("continues"):
+        site = fname + ":outer-filter"
+        base = at.get(f.cfg.pos_cond(f.nodes[L["node"]]["body"]) if f.nodes[L["node"]].get("body") is not None else None, frozenset())
+        for cnode, _k in L["continues"]:
+            cf = [x for x in at.get(f.cfg.pos1(cnode), frozenset()) if x not in base]
+            small = []
+            for x in cf:
+                if x[0] in ("<", "<=") and not (x[1][0] == "lit"):
+                    q = x[1]
+                    while q[0] == "call" and q[1] in ("abs", "std::abs", "fabs", "std::fabs") and len(q) == 3:
+                        q = q[2]
+                    small.append(rw(q))
+                elif x[0] == "==" and ("lit", 0) in x[1:]:
+                    small.append(rw([y for y in x[1:] if y != ("lit", 0)][0]))
+            if not small:
+                raise AnalysisBroken("%s: the outer loop skips iterations under a condition that is not a smallness test (%s): not analysed" % (fname, "; ".join(str(x)[:60] for x in cf)))
+            vanishing = False
+            for q in small:
+                try:
+                    qs = F.conv(q)
+                except AnalysisBroken:
+                    continue
+                if qs.is_Symbol and F.is_zero(res.subs(qs, 0)):
+                    vanishing = True
+            if vanishing:
+                rule.ok(site, f.loc(cnode), "outer states are skipped only when a factor of the residue is negligible", cfgname)
+            else:
+                rule.bad(site, f.loc(cnode), "outer states are skipped when %s is small, but the residue added for them, %s, does not vanish with it: Lehmann terms of order one are dropped "
+                         "(e.g. an unpopulated outer state with a populated inner one)" % (" / ".join(F.show(F.conv(q)) for q in small), F.show(res)), cfgname)
     site = fname + ":Pole"
     if F.equal(pole, want_pole):
         rule.ok(site, f.loc(J), "Pole == E_inner(i) - E_outer(o)", cfgname)
@@ -557,6 +589,7 @@ def check_prepare(rule, walkrule, db, cfgname, OWNER, PARTCLS, LEFT, RIGHT):
     Cm, CXm = fld(OWNER + "::" + LEFT), fld(OWNER + "::" + RIGHT)
     # iterators over the bimap views
     its = {}
+    found_by = None
     for d, v in gctx.decls.items():
         if v.get("init") is None:
             continue
@@ -566,12 +599,33 @@ def check_prepare(rule, walkrule, db, cfgname, OWNER, PARTCLS, LEFT, RIGHT):
             its["C"] = ("var", d, v["n"])
         if k[0] == "mcall" and k[1].endswith("::begin") and k[2][0] == "field" and k[2][1].endswith("::right") and k[2][2] in maps(CXm):
             its["CX"] = ("var", d, v["n"])
+        # look-up form: for every entry of c's left view the partner is searched in c^+'s right view by key
+        if k[0] == "mcall" and k[1].endswith("::find") and len(k) == 4 and k[2][0] == "field" and k[2][1].endswith("::right") and k[2][2] in maps(CXm):
+            its["CX"] = ("var", d, v["n"])
+            found_by = (("var", d, v["n"]), k[3], k[2])
     site = OWNER + "::prepare:bimap-views"
     if set(its) != {"C", "CX"}:
         rule.bad(site, g.loc(), "the walk does not run over the LEFT view of c's block map and the RIGHT view of c^+'s block map (found %s)" % sorted(its), cfgname)
     else:
         rule.ok(site, g.loc(), "Citer over C.getBlockMapping().left, CXiter over CX.getBlockMapping().right", cfgname)
         Ci, CXi = its["C"], its["CX"]
+        if found_by is not None:
+            # an entry found by key has that key: under `it != view.end()` the first member of the entry equals the searched key
+            itv, skey, view = found_by
+            endk = ("mcall", None)
+            itinit = gctx.key(gctx.decls[itv[1]]["init"]) if gctx.decls.get(itv[1], {}).get("init") is not None else None
+            if any(x[0] == "!=" and (itv in x[1:] or (itinit is not None and itinit in x[1:])) and any(isinstance(y, tuple) and y[0] == "mcall" and y[1].split("::")[-1] in ("end", "cend") for y in x[1:]) for x in fa):
+                firsts = [("field", q, ("op", "->", iv_)) for iv_ in ([itv] + ([itinit] if itinit is not None else []))
+                          for q in ("boost::bimaps::relation::detail::mirror_storage::first", "boost::bimaps::relation::detail::normal_storage::first", "std::pair::first")]
+                # (substituted, not added as an equality fact: the found entry's key CONTAINS the searched key as the argument of
+                # find(), and a congruence closure over a term and its own sub-term does not terminate in a normal form)
+                skey_ = strip_conv(skey)
+                found_subst = lambda kk: key_subst(kk, lambda y: skey_ if y in firsts else None)
+                rw0 = rw
+                rw = lambda kk: rw0(found_subst(kk))
+                args = [rw(strip_cast(a)) for a in nk[2][2:]]
+            else:
+                rule.bad(OWNER + "::prepare:found-entry", g.loc(N), "the entry looked up in c^+'s block map is used without the test that it was found", cfgname)
 
         def pf(it, which):
             return [("field", "std::pair::" + which, ("op", "->", it))] + [("field", q, ("op", "->", it)) for q in ()]
@@ -606,6 +660,11 @@ def check_prepare(rule, walkrule, db, cfgname, OWNER, PARTCLS, LEFT, RIGHT):
         Rb = inl(Ci, "second")    # right block of c = inner space
         CXr = inl(CXi, "first")   # right view: first = right block of c^+
         CXl = inl(CXi, "second")
+        if found_by is not None:
+            # (in the look-up form the members of the found entry need not be copied into locals)
+            civ = gctx.key(gctx.decls[CXi[1]]["init"]) if gctx.decls.get(CXi[1], {}).get("init") is not None and gctx.single_assignment(CXi[1]) else CXi
+            CXr = CXr or rw(("field", "boost::bimaps::relation::detail::mirror_storage::first", ("op", "->", civ)))
+            CXl = CXl or rw(("field", "boost::bimaps::relation::detail::mirror_storage::second", ("op", "->", civ)))
         site = OWNER + "::prepare:stripe-test"
         if None in (Lb, Rb, CXr, CXl):
             raise AnalysisBroken(OWNER.split("::")[-1] + "::prepare: block variables are not read from ->first/->second of the two iterators")
@@ -647,6 +706,19 @@ def check_prepare(rule, walkrule, db, cfgname, OWNER, PARTCLS, LEFT, RIGHT):
     else:
         rule.ok(site, c.loc(), "parameters (C, CX, HpartInner, HpartOuter, DMpartInner, DMpartOuter) initialise the members of the same name", cfgname)
 
+    if found_by is not None:
+        # no merge walk: the loop must simply visit every entry of c's left view
+        site = OWNER + "::prepare:walk"
+        okw = False
+        for L_ in enclosing_loops(g, N):
+            shp_ = loop_shape(g, gctx, L_)
+            if shp_.get("kind") in ("iter", "range") and shp_.get("bound") is not None and shp_["bound"][0] == "field" and shp_["bound"][1].endswith("::left") and not shp_.get("exits"):
+                okw = True
+        if okw:
+            walkrule.ok(site, g.loc(N), "every entry of c's left view is visited; its partner is looked up by key in c^+'s right view", cfgname)
+        else:
+            raise AnalysisBroken(OWNER.split("::")[-1] + "::prepare: look-up form, but the loop over c's block map is not recognised")
+        return c
     check_block_walk(walkrule, g, gctx, gat, cfgname, OWNER + "::prepare", N)
     return c
 
